@@ -238,6 +238,14 @@ func (s *Sim) GoMain(name string, fn func()) {
 	})
 }
 
+// Quiesce ends fault injection for the rest of the run: from now on every scheduling, select-order and
+// stall decision takes its default (keep running / fair rotating select order / no fault). Liveness
+// oracles ("nothing of the run remains") are stated for the time after faults have stopped: Go's select is
+// fair only with probability 1, so an adversarial order could starve a ready case for any finite time.
+func (s *Sim) Quiesce() {
+	s.ch.SetQuiet()
+}
+
 // AtStep registers fn to be executed by the scheduler itself when the step counter reaches step
 // (used for "cancel at scheduling step k": an asynchronous signal).
 func (s *Sim) AtStep(step uint64, fn func()) {
